@@ -2,7 +2,7 @@ SPECIFICATION Spec
 CONSTANTS
   MaxVariants = 2
   EmitCases = TRUE
-  Traits = {"Display", "Debug"}
+  Traits = {"Display", "Debug", "LowerHex", "UpperHex", "Octal", "Binary", "LowerExp", "UpperExp"}
 INVARIANTS
   P_C07
   P_C07_DefaultOnly
